@@ -104,7 +104,7 @@ func Check(v any) error {
 	}
 
 	// Check names
-	names := map[string]bool{"id": true}
+	names := map[string]bool{"id": true, idField.Tag.Get("json"): true}
 
 	for i := 0; i < value.NumField(); i++ {
 		sf := value.Type().Field(i)
